@@ -166,6 +166,26 @@ def run_sign(case):
             except dns.exception.DNSException as e:
                 raise Violation("verify", f"a signed message rendered with prefer_truncation (limit {max(512, len(w) - 40)}, {len(w2)} octets) does not validate: {type(e).__name__}", "truncated-signed")
             classes.append("signed-truncated")
+    # 1c. the same Message object rendered again later (a retry over TCP, a retransmission): the
+    # second rendering is signed for the second time and must be a valid RFC 8945 message of its own
+    if case["error"] == 0 and case["fudge"] < 0xFFFF:
+        for delta in (0, 1, case["fudge"] + 1):
+            now2 = now + delta
+            if now2 > 0xFFFFFFFFFFFF:
+                continue
+            try:
+                wr = _sign(m, now2)
+            except dns.exception.TooBig:
+                continue
+            fr = _check_mac(wr, kd, b"", "re-signed")
+            if fr.time != now2:
+                raise Violation("mac", f"second rendering at time {now2} carries time signed {fr.time}", "resign-time")
+            try:
+                _validate(wr, key, now2)
+            except dns.exception.DNSException as e:
+                raise Violation("verify", f"the second rendering of a signed Message ({delta} s after the first) does not validate: {type(e).__name__}", "resigned")
+            if delta == 1:
+                classes.append("re-signed-later")
     # 2. genuine => verifies, every keyring form
     forms = {
         "key": key,
@@ -537,7 +557,7 @@ def multi_cases(draw):
 def parts(tier):
     req_alg = {"alg:%d" % i: 10 for i in range(9)}
     req = dict(req_alg)
-    req.update({"signed-truncated": 15, "response": 200, "peer-error": 50, "window-edges": 200, "time>2^32": 30, "tsig-moved": 100})
+    req.update({"signed-truncated": 15, "response": 200, "peer-error": 50, "window-edges": 200, "time>2^32": 30, "tsig-moved": 100, "re-signed-later": 300})
     return [
         Part("sign", run_sign, strategy=sign_cases(), n={"quick": 1200, "thorough": 60000}, require=req,
              shards={"quick": 8, "thorough": 16}),
